@@ -1527,6 +1527,12 @@ write_sub_module(ostream &out, Object *obj) {
     InterrogateDatabase *idb = InterrogateDatabase::get_ptr();
     const InterrogateType &wrapped_itype = idb->get_type(wrapped);
 
+    if (!wrapped_itype.is_class() && !wrapped_itype.is_struct()) {
+      // Only classes have a Python type object that the typedef name can be
+      // made an alias of.
+      return;
+    }
+
     class_name = make_safe_name(wrapped_itype.get_scoped_name());
 
     out << "  // typedef " << wrapped_itype.get_scoped_name()
